@@ -239,7 +239,7 @@ end
 
 /-- parse a whole token list as one expression -/
 def parseExpr (P : Table) (ts : List Tok) : Option PExpr :=
-  match parseBp P (8 * ts.length + 8) 0 ts with
+  match parseBp P (32 * ts.length + 32) 0 ts with
   | some (e, []) => some e
   | _ => none
 
